@@ -46,11 +46,31 @@ def parseReq (s : String) : List (Option Nat × Nat) × Nat :=
       | _ => none, c.toNat?.getD 0)
   | _ => ([], 0)
 
+def driveConnect (blk callsS waitsS impl : String) : Verdict :=
+  let blocking := blk == "1"
+  let calls := (csv ((callsS.splitOn "calls:").getLastD "")).filterMap parseCall
+  let waits := (csv ((waitsS.splitOn "waits:").getLastD "")).filterMap parseWait
+  let limit := (kv impl "limit").toNat?.getD U64MAX
+  let first := calls.headD (.err ECONNRESET)
+  let out := connectCall blocking limit 1000000000 first waits
+  let mo := s!"limit={limit} ret={out.ret} errno={out.errno} reqs=c#1 waits={joinWith "," (out.waits.map fun n => s!"w{n}")} flag={boolStr out.blockingAfter} elapsed={out.elapsed} moved=0 lasterr={out.lastErr.getD 0} placed=ok"
+  let abn := (words impl).any (fun w => w == "HANG" || w == "ABORT")
+  let iwaits := (csv (kv impl "waits")).length
+  let f18 : List String :=
+    (if abn then [s!"[abort-or-hang] connect: {impl}"] else []) ++
+    (if !abn ∧ !blocking ∧ iwaits > 0 then [s!"[nonblocking-waited] connect on a non-blocking descriptor waited {iwaits} time(s) instead of returning the kernel's answer"] else []) ++
+    (if !abn ∧ (kv impl "flag" == "1") != blocking then [s!"[flag-changed] connect left the descriptor {if blocking then "non-blocking" else "blocking"}"] else [])
+  { modelOut := mo, blame := if mo == impl then none else some ["C18"],
+    spec := [("C16", true, ""), ("C17", true, ""), ("C18", f18.isEmpty, joinWith " ; " f18)],
+    labels := ["connect", if blocking then "blocking" else "nonblocking",
+               if out.ret ≥ 0 then "success" else if out.waits.isEmpty then "fail-nowait" else "fail-after-wait"] }
+
 def driveOne (body impl : String) : Verdict :=
   match splitTrim body ";" with
   | [head, callsS, waitsS] =>
     match words head with
     | [call, blk, _limitUs, shapeS] =>
+      if call == "connect" then driveConnect blk callsS waitsS impl else
       match kindOf call with
       | none => { modelOut := "BADCALL" }
       | some k =>
